@@ -350,7 +350,8 @@ func (s state) enabled(o op) bool {
 	case kInst:
 		// each named module is instantiated at most once per history (see NOTES: limits); the attempt may fail
 		// with an ordinary error (compiled module closed, runtime closed, import target closed).
-		return s.Inst[o.X] == instNone && !s.Drop[o.X]
+		// (the shared-memory graph MN is a world of its own: A, B, C are not added to it)
+		return s.Inst[o.X] == instNone && !s.Drop[o.X] && s.Inst[mM] == instNone
 	case kFresh:
 		return true
 	case kCloseInst:
